@@ -53,6 +53,9 @@ SockaddrIn6(port, flow4, ip16, scope4) == << 10, 0, port \div 256, port % 256 >>
 SockaddrUn(path) == << 1, 0 >> \o path
 
 \* ---- errno names (asm-generic/errno-base.h, errno.h); aliases share a number -------------------
+\* The aliases are the ones those headers define (EWOULDBLOCK, EDEADLOCK).  ENOTSUP is a C library
+\* name for 95 that the kernel's headers do not have (the kernel's own ENOTSUPP is 524), so a record
+\* written by the kernel with exit=-95 means EOPNOTSUPP.
 ErrnoNames(n) ==
     CASE n = 1 -> {"EPERM"} [] n = 2 -> {"ENOENT"} [] n = 3 -> {"ESRCH"} [] n = 4 -> {"EINTR"} [] n = 5 -> {"EIO"}
       [] n = 6 -> {"ENXIO"} [] n = 7 -> {"E2BIG"} [] n = 8 -> {"ENOEXEC"} [] n = 9 -> {"EBADF"} [] n = 10 -> {"ECHILD"}
@@ -73,7 +76,7 @@ ErrnoNames(n) ==
       [] n = 81 -> {"ELIBSCN"} [] n = 82 -> {"ELIBMAX"} [] n = 83 -> {"ELIBEXEC"} [] n = 84 -> {"EILSEQ"} [] n = 85 -> {"ERESTART"}
       [] n = 86 -> {"ESTRPIPE"} [] n = 87 -> {"EUSERS"} [] n = 88 -> {"ENOTSOCK"} [] n = 89 -> {"EDESTADDRREQ"} [] n = 90 -> {"EMSGSIZE"}
       [] n = 91 -> {"EPROTOTYPE"} [] n = 92 -> {"ENOPROTOOPT"} [] n = 93 -> {"EPROTONOSUPPORT"} [] n = 94 -> {"ESOCKTNOSUPPORT"}
-      [] n = 95 -> {"EOPNOTSUPP", "ENOTSUP"} [] n = 96 -> {"EPFNOSUPPORT"} [] n = 97 -> {"EAFNOSUPPORT"} [] n = 98 -> {"EADDRINUSE"}
+      [] n = 95 -> {"EOPNOTSUPP"} [] n = 96 -> {"EPFNOSUPPORT"} [] n = 97 -> {"EAFNOSUPPORT"} [] n = 98 -> {"EADDRINUSE"}
       [] n = 99 -> {"EADDRNOTAVAIL"} [] n = 100 -> {"ENETDOWN"} [] n = 101 -> {"ENETUNREACH"} [] n = 102 -> {"ENETRESET"}
       [] n = 103 -> {"ECONNABORTED"} [] n = 104 -> {"ECONNRESET"} [] n = 105 -> {"ENOBUFS"} [] n = 106 -> {"EISCONN"}
       [] n = 107 -> {"ENOTCONN"} [] n = 108 -> {"ESHUTDOWN"} [] n = 109 -> {"ETOOMANYREFS"} [] n = 110 -> {"ETIMEDOUT"}
